@@ -368,6 +368,12 @@ def evaluate(cases, workdir, shard_weight=1500, timeout=1500):
     return flags
 
 
+# hex-valued fields of a replay input that may be shortened (everything else - property number, options,
+# times, provider script - is part of what makes the case fail and is kept as it is)
+SHRINK_KEYS = {"validate": ("u", "b"), "c17": ("u", "b"), "c18": ("u", "b"), "path": ("p",), "query": ("q",),
+               "key": ("s", "rg", "sv"), "capacity": ("s",), "iso": ("t",), "hdrval": ("v",)}
+
+
 def shrink(case, workdir, want):
     """Greedy byte-deletion shrinking of the hex fields of a replay input; `want(flag)` says
     whether a candidate still shows the same failure."""
@@ -378,7 +384,7 @@ def shrink(case, workdir, want):
         cands = []
         for ti, tok in enumerate(toks):
             k, _, v = tok.partition("=")
-            if len(v) < 2 or len(v) % 2 or not re.fullmatch(r"[0-9a-f]*", v) or k in ("s3",):
+            if len(v) < 2 or len(v) % 2 or not re.fullmatch(r"[0-9a-f]*", v) or k not in SHRINK_KEYS.get(kind, ()):
                 continue
             n = len(v) // 2
             step = max(1, n // 40)
